@@ -886,3 +886,6 @@ where
         FEither::Right((_, read_fut)) => read_fut.await,
     }
 }
+
+#[cfg(swimos_verif)]
+pub use self::envelopes::ReconEncoder as VerifReconEncoder;
